@@ -292,7 +292,8 @@ def _apply_unitary(val: Any, args: ApplyChannelArgs) -> np.ndarray | None:
         if left_result is None:
             return None  # pragma: no cover
     right_args = ApplyUnitaryArgs(
-        target_tensor=np.conjugate(left_result),
+        # np.conjugate turns a 0-d tensor (zero-qubit operation) into a scalar, which is no buffer.
+        target_tensor=np.asarray(np.conjugate(left_result)),
         available_buffer=args.out_buffer,
         axes=args.right_axes,
     )
